@@ -263,7 +263,7 @@ def run_cbmc(job, wd, tier, inputs):
     hints = profile_bounds(job, wd, inputs, cfiles, inc, dfl)
     bounds = {nm: hints.get(nm, 0) + 1 + job.get('unwind_margin', 0) for nm in names}
     for nm in names:   # loops of the harness / oracle / runtime (not translated code): constant trip counts, give them a floor
-        if not nm.startswith('F_'): bounds[nm] = max(bounds[nm], job.get('harness_unwind', 12))
+        if not nm.startswith('F_') and nm not in hints: bounds[nm] = max(bounds[nm], job.get('harness_unwind', 12))   # never seen iterating in the profile runs
     for rx, b in job.get('unwind_rules', []):
         for nm in names:
             if re.search(rx, nm): bounds[nm] = max(bounds[nm], b)
